@@ -112,14 +112,22 @@ def build_sim_resource(world, prefix="sim://", chained=False, private=False):
 class FakeResponse:
     """What the simulated HTTP server answers: enough of requests.Response for plain and streamed downloads."""
 
-    def __init__(self, url, status_code, content, world=None, drop_after=None, headers=None):
+    def __init__(self, url, status_code, content, world=None, drop_after=None, headers=None, gzip_encoded=False):
         self.url = url
         self.status_code = status_code
         self._content = content
         self._world = world
         self._drop_after = drop_after  # number of pieces delivered before the connection breaks
         self.headers = dict(headers or {})
-        self.headers.setdefault("Content-Length", str(len(content)))
+        # what travels on the wire: the body itself, or (a server that compresses on the fly) its gzip form;
+        # .content / .iter_content decode it as requests does, .raw hands out the wire bytes undecoded
+        wire = content
+        if gzip_encoded:
+            import gzip as _gz
+            wire = _gz.compress(content, 6, mtime=0)
+            self.headers.setdefault("Content-Encoding", "gzip")
+        self.headers.setdefault("Content-Length", str(len(wire)))
+        self.raw = _RawBody(self, wire)
         self.reason = {200: "OK", 206: "Partial Content", 404: "Not Found", 500: "Internal Server Error",
                        503: "Service Unavailable"}.get(status_code, "")
         self.encoding = None
@@ -172,6 +180,62 @@ class FakeResponse:
 
     def __exit__(self, *a):
         return False
+
+
+class _RawBody:
+    """response.raw: the undecoded wire bytes, file-like (read / stream / readinto-free), as urllib3's is."""
+
+    def __init__(self, resp, wire):
+        self._resp = resp
+        self._wire = wire
+        self._pos = 0
+        self._n = 0
+        self.decode_content = False
+        self.closed = False
+        self._dec = None
+
+    def _piece(self, amt):
+        import urllib3
+        r = self._resp
+        w = r._world
+        if r._drop_after is not None and (self._n >= r._drop_after or self._pos >= len(self._wire)):
+            raise urllib3.exceptions.ProtocolError("injected: connection broken while reading the body")
+        # (at most ~16 pieces per body: a reader with a tiny buffer must not eat the run's step budget)
+        cap = max(w.chunk if w is not None else 4096, len(self._wire) // 16 + 1)
+        n = len(self._wire) - self._pos if amt is None or amt < 0 else min(amt, cap)
+        data = self._wire[self._pos:self._pos + n]
+        if w is not None and data:
+            w.sched("net.chunk", r.url, len(data))
+        self._pos += len(data)
+        self._n += 1
+        return data
+
+    def read(self, amt=None, decode_content=None):
+        decode = (decode_content or (decode_content is None and self.decode_content)) and \
+            self._resp.headers.get("Content-Encoding") == "gzip"
+        if not decode:
+            return self._piece(amt)
+        # incremental decoding as urllib3 does it: never an empty answer before the end of the body
+        import zlib
+        if self._dec is None:
+            self._dec = zlib.decompressobj(16 + zlib.MAX_WBITS)
+        while True:
+            data = self._piece(amt)
+            if not data:
+                return self._dec.flush()
+            out = self._dec.decompress(data)
+            if out:
+                return out
+
+    def stream(self, amt=65536, decode_content=None):
+        while self._pos < len(self._wire):
+            yield self.read(amt, decode_content)
+
+    def close(self):
+        self.closed = True
+
+    def release_conn(self):
+        pass
 
 
 class _Api:
